@@ -25,7 +25,7 @@ claim("C07",
        "linearity in liquidity, closed forms, open/close round trip in every rounding context; tied to get_liquidity/get_amounts/"
        "V3CoreLib.new_position/close_position by bit-exact differential execution (driver runs Decimal prec-35 semantics) and by the property "
        "oracle evaluated with exact Fractions on the implementation's outputs.",
-  note="Trusted: Lean kernel, harness generators, Decimal = exact-then-round35. Theorems are for the exact rational semantics; the rounding of the "
+  note="The source of V3CoreLib.new_position / get_token_amounts / close_position (int- and Decimal-liquidity readings) and update_fee with its two inner closures is translated to Lean by tools/py2lean.py on every run and proved equal to the kernel/fee model (Proofs/Tie/UniCore.lean, 10 Tie_unicore_* theorems) for every rounding context, results and exception classes; update_fee is tied for an integer last_tick, the nan of a fresh market by differential execution only. Trusted: Lean kernel, harness generators, Decimal = exact-then-round35. Theorems are for the exact rational semantics; the rounding of the "
        "three Decimal divisions is covered by the property's own 1e-30 tolerance (measured max deviation reported in evidence).",
   technique="Lean 4 proof (Nat/Rat inequalities) + differential correspondence with the Python code",
   ref="DESIGN.md §2 C07")
@@ -55,7 +55,9 @@ claim("C12",
        "and by an exact-Fraction oracle on the implementation's own observations (states at every recorded action, wallet).",
   note="Exact rational semantics; 35-digit rounding reproduced bit-exactly by the driver and measured. Statements hold up to the dust helper.sub_base_amount snaps "
        "(< MIN_TOKEN_VALUE = 1e-18 - 1e-27 scaled units), explicit in the theorems. WF hypotheses: prices and indices > 0, bases >= 0, unique keys, collateral => LT > 0 "
-       "(re-checked on the CSVs each run). Wallet-untouched is structural in the model and oracle-checked on the code. Three defects repaired (97b6191, 1a74ab7, 75ca867).",
+       "(re-checked on the CSVs each run). Wallet-untouched is structural in the model and oracle-checked on the code. Three defects repaired (97b6191, 1a74ab7, 75ca867). update() never raises DemeterError under any monotone idempotent rounding "
+       "(C12_update_never_raises_demeter_error, with a witness that non-negative debts are needed); the whole-loop refinement C12_state_machine_refines_risk_model_update transfers "
+       "termination / every-step / liquidates-iff / each-debt-once to the cache-carrying state machine (C12_sm_*).",
   technique="Lean 4 proof (fold invariants, fuel induction, field arithmetic) over a model with source-regenerated constants; step-wise differential correspondence plus exact oracle",
   ref="DESIGN.md §2 C12")
 
@@ -84,7 +86,7 @@ claim("C17",
        "pool; round trip returns <= paid when impact <= 0, with an exact closed form otherwise; shares never negative. Tied to the code by step-wise differential "
        "execution against real GmxMarket / GmxV2Market objects (v1 bit-exact under 35-digit rounding, v2 at 1e-12) and independent Fraction oracles written from "
        "the property and contract, on recorded CSV rows and generated rows.",
-  note="Known findings with kernel-checked witnesses: the code never floors target/average/rebate, so it differs from the Vault at the rule's mirror point (0 vs 85 bp) "
+  note="The float code of demeter/gmx/gmx_v2 (utils, MarketUtils, SwapPricingUtils, ExecuteDepositUtils, ExecuteWithdrawUtils: 23 functions) is translated in float mode over an abstract number type and proved equal to Demeter/GmxV2.lean for every number type and Ops (Proofs/Tie/Gmx2.lean, Gmx2Exec.lean) up to mintAmount and outputAmount; the ties through ** assume the base is not negative and not zero with a negative exponent (proved over Rat for exponent >= 0); generated code at Float agrees with CPython bit for bit on random cases, libm pow is an oracle on both sides; market2.py (wallet, data rows) is tied by differential execution only. Known findings with kernel-checked witnesses: the code never floors target/average/rebate, so it differs from the Vault at the rule's mirror point (0 vs 85 bp) "
        "and for targets below 200 wei; the v2 positive-impact round trip profits on a frozen row (by design of the GM formulas). v2 Float vs Rat semantics is measured "
        "(libm pow is an oracle on both sides). Five defects repaired (155684f, 8743204, 6f3533d, a18ed8c, 6da6425).",
   technique="Lean 4 proof (floor arithmetic, field arithmetic, induction over op lists) + step-wise differential correspondence + Fraction oracles",
@@ -108,7 +110,7 @@ claim("C20",
        "variance (ddof 1), volatility, Sharpe, alpha/beta equal their direct formulas; every entry of performance_metrics is the corresponding function on "
        "interval/duration derived from the index. Tied to the code by differential execution (exact model fed the floats' exact values, 1e-9 relative) and by an "
        "exact-Fraction oracle of the definitions on the implementation's outputs.",
-  note="Trusted: Lean kernel, tools/consts_metrics.py (365, 1e9, 86400, scan start values), harness generators. Float rounding of numpy/pandas is measured (max 3.9e-11), "
+  note="_withdraw_with_high_low (the drawdown scan) and return_value are translated from the source on every run and proved equal to Metrics.withdrawHighLow / returnValue at Rat for every list, with index safety shown (Proofs/Tie/Metrics.lean); the numpy/pandas functions remain tied by differential execution and source-flag constants only. Trusted: Lean kernel, tools/consts_metrics.py (365, 1e9, 86400, scan start values), harness generators. Float rounding of numpy/pandas is measured (max 3.9e-11), "
        "not proved; pow/sqrt are oracle parameters (driver: Lean Float). Series with return variance < 1e-12*mean^2 compared by outcome class only. Defect repaired: 4a8a932.",
   technique="Lean 4 proof (loop invariant + list induction over Rat) + differential correspondence + exact-Fraction oracle",
   ref="DESIGN.md §2 C20")
@@ -135,8 +137,9 @@ claim("C02",
        "Actuator (probe markets, Uniswap, Uniswap+Aave, Uniswap+Deribit; 1 min, 5 min, 1 h) comparing rows/actions/snapshots of the common prefix, by comparing the real "
        "lookups with the model's views, by hashing the supplied frames (incl. nested order-book lists) before and after, and by reruns on the same inputs.",
   note="Frame immutability and rerun equality are aliasing/runtime facts a pure model cannot exhibit: measured by hashing, not proved. A strategy that reads self.data ahead of "
-       "time is outside the property. GMX and Squeeth whole runs are not in the two-suffix mix (Squeeth's window is checked through get_twap_price).",
-  technique="Lean 4 proof (fold/scan prefix lemma + view locality) + two-suffix differential runs, frame hashing, reruns",
+       "time is outside the property. GMX v1/v2 and Squeeth whole runs are in the two-suffix / rerun mix at 1/5/15 min/1 h with per-frame missing minutes; per-market balance entries and the "
+       "append-only account history are compared; frame digests cover dtypes, index class/freq/tz, nested list cells.",
+  technique="Lean 4 proof (fold/scan prefix lemma + view locality) + two-suffix differential runs, frame hashing, reruns, append-only history oracle, crafted Deribit pairs",
   ref="DESIGN.md §2 C02")
 
 claim("C03",
@@ -159,7 +162,9 @@ claim("C04",
        "transaction (Uniswap helpers, Squeeth update per liquidate). Witness theorems show the pre-repair code was not atomic. A rejection-directed generator constructs, per "
        "operation and cause, states in which exactly that precondition fails, and diffs deep snapshots of the real objects around the raising call; the model's post-rejection state "
        "is compared too.",
-  note="has_update is excluded by the property. Aave update() is covered only for the closed-market rejection. Holds because of the repairs (0614350, 07ef1e2, 236eb3f, 4da5e32, "
+  note="has_update is excluded by the property. Aave update(): _do_liquidate is atomic (returns with one record or raises with the core untouched); an update() that raises before a recorded step leaves everything "
+       "intact; on well-formed bars/states (computable Aave.updWF, evaluated by harness and driver on every update()) it completes with the risk model's state (exact arithmetic); a "
+       "raise between two recorded steps on malformed bars leaves the completed steps (counted, never observed). Holds because of the repairs (0614350, 07ef1e2, 236eb3f, 4da5e32, "
        "a6df880, 763165f, 4fb272a, 155684f, 8743204, f93950b ...).",
   technique="Lean 4 proof (case analysis: every check precedes the first mutation / transaction wrapper restores) per market + rejection-directed differential execution with deep snapshots",
   ref="DESIGN.md §2 C04")
@@ -170,10 +175,13 @@ claim("C05",
        "notify last); every accepted operation yields one action stamped with its bar and delivered to notify exactly once at the end of that bar; one account row per bar with its "
        "timestamp and prices; update once per market per bar; second refresh iff has_update; is_open gates write_func operations; hourly markets open on whole hours; the resampled "
        "index is the grid of bin labels. Tied to the code by exact call-trace equality against a real Actuator with in-memory Market subclasses and a real UniLpMarket, plus an "
-       "independent trace oracle.",
-  note="Markets are abstract in the model (index, is_open, has_update, open callback; operation and update effects uninterpreted); pandas resample/.loc exercised and compared, "
-       "not modelled internally; hooks do not raise or issue operations from notify(). The oracle on the implementation's trace is a Python restatement of the clauses.",
-  technique="Lean 4 proof (induction over bar lists on a trace semantics) + exact call-trace differential execution of the real Actuator + independent trace oracle",
+       "independent trace oracle; for scripts whose hooks also raise and change strategy.triggers (general model runG, proved equal to run on operation-only scripts): the books "
+       "of every run failed or not, a failing run is a prefix (calls, account history, actions) of the run without the raise, which exception leaves run(), the next run() "
+       "starts clean, operations issued from notify() are recorded, stamped and delivered in their own bar.",
+  note="Markets abstract; pandas resample/.loc exercised and compared, not modelled internally; hooks run statement lists (op / append trigger / remove trigger / raise) - list.insert and "
+       "rebinding strategy.triggers mid-loop are not modelled; the RuntimeError handler's file output is observed only; the exact row count of a failed run is oracle-checked (the "
+       "prefix relation is proved). The oracle on the implementation's trace is a Python restatement of the clauses.",
+  technique="Lean 4 proof (induction over bar lists on a trace semantics, cut-refinement prefix proof, refinement runG = run) + exact call-trace differential execution of the real Actuator + independent trace oracle",
   ref="DESIGN.md §2 C05")
 
 claim("C08",
@@ -183,7 +191,7 @@ claim("C08",
        "denominator; liquidity added in a bar earns in it; witness that the pre-repair refresh broke the path start. Tied to the code by bit-exact differential execution of "
        "update_fee (int, int64, float64 tick dtypes, boundary stream) and of every set_market_status/update() in real Actuator.run with scripted operations, plus a Fraction "
        "oracle and paired runs.",
-  note="Arithmetic theorems for exact rationals; the driver reproduces 35-digit Decimal bit-exactly and the oracle allows 1e-30. Bar 0 starts at its own close (no previous bar; "
+  note="The source of V3CoreLib.new_position / get_token_amounts / close_position (int- and Decimal-liquidity readings) and update_fee with its two inner closures is translated to Lean by tools/py2lean.py on every run and proved equal to the kernel/fee model (Proofs/Tie/UniCore.lean, 10 Tie_unicore_* theorems) for every rounding context, results and exception classes; update_fee is tied for an integer last_tick, the nan of a fresh market by differential execution only. Arithmetic theorems for exact rationals; the driver reproduces 35-digit Decimal bit-exactly and the oracle allows 1e-30. Bar 0 starts at its own close (no previous bar; "
        "decision in DESIGN.md). pandas row extraction and the Actuator phase order are exercised here and proved in C05. Fixes: e33398a, 43784a1.",
   technique="Lean 4 proof (grind over the insertion sort, induction over bars and operation lists) + differential correspondence + exact-Fraction oracle",
   ref="DESIGN.md §2 C08")
@@ -194,7 +202,7 @@ claim("C09",
        "outcomes step by step, final states mirror each other. Kernel reciprocity |s(t)s(-t) - 2^192| <= 2 max for all ticks (exhaustive kernel sweep, C06_reciprocity) and a "
        "witness that floor does not commute with negation (add_liquidity_by_value). The harness runs the real market on a pool and its mirror and compares all observables at 1e-12 "
        "(0.1 % for estimate helpers), and compares both orientations bit-exactly with the model.",
-  note="Closeness of the concrete kernel's results (1e-12 / 0.1 %) is MEASURED, not proved (a full error analysis through the integer floors is out of scope): |tick| <= 330000, "
+  note="The source of V3CoreLib.new_position / get_token_amounts / close_position (int- and Decimal-liquidity readings) and update_fee with its two inner closures is translated to Lean by tools/py2lean.py on every run and proved equal to the kernel/fee model (Proofs/Tie/UniCore.lean, 10 Tie_unicore_* theorems) for every rounding context, results and exception classes; update_fee is tied for an integer last_tick, the nan of a fresh market by differential execution only. Closeness of the concrete kernel's results (1e-12 / 0.1 %) is MEASURED, not proved (a full error analysis through the integer floors is out of scope): |tick| <= 330000, "
        "tolerance max(1e-12, 2/L_min), states with the price within 1e-9 of a range bound skipped as ill-conditioned. Known finding: add_liquidity_by_value rounds the floor tick to "
        "the spacing, so the two token orders can land one spacing apart. The action log is excluded from the mirrored state (lower/upper price labels swap). Fixes: 67e82e9, 43cd360.",
   technique="Lean 4 simulation proof with an abstract kernel + exhaustive kernel sweep + two-orientation differential execution",
@@ -205,9 +213,10 @@ claim("C10",
        "dust), nothing else changes; full withdraw/repay removes the entry; balance = a x I_now / I_0 after any history of bars and non-targeting operations (supply and debt side); "
        "split = merge for supplies, borrows, withdrawals. Tied to the code by bit-exact step-wise differential execution over random non-decreasing index paths and interleavings "
        "and a shadow-ledger oracle checking 1e-18 on every step.",
-  note="The 35-digit rounding is measured (driver bit-exact with CPython; oracle 1e-18 within the envelope), the eps-robust versions planned in DESIGN.md are not proved; no repay-split "
-       "theorem (oracle only). The sub_base_amount clamp (< 1e-18) is explicit in the statements.",
-  technique="Lean 4 proof (inversion of accepted calls, induction over histories) + step-wise differential correspondence + shadow-ledger oracle",
+  note="Exact-arithmetic theorems plus eps-robust round trips on supply and debt side (C10_roundtrip_robust/_pyG, C10_debt_roundtrip_robust/_pyG; eps = 5e-35 proved for the guarded "
+       "35-digit context); split = merge proved for supply, borrow, withdraw, cash repay (incl. wallet up to Asset.sub's 1e-5 dust and the full-repay/dust-snap case), "
+       "repay(a);repay(None) = repay(None), and repay out of collateral incl. the capped branch. The sub_base_amount clamp (< 1e-18) is explicit in the statements.",
+  technique="Lean 4 proof (inversion of accepted calls, induction over histories, eps-propagation) + step-wise differential correspondence + shadow-ledger oracle; harness split/merge oracle also on the wallet and for collateral repays",
   ref="DESIGN.md §2 C10")
 
 claim("C13",
@@ -215,8 +224,8 @@ claim("C13",
        "preserved by every read, write, rejected call, liquidation and bar change, hence an invariant of every history, hence every view read equals its from-scratch recomputation "
        "in every reachable state; per-token value = base x index x price; listed supplies carry the stored collateral flag. Tied to the code by step-wise differential execution of "
        "read-write-read interleavings (caches dumped) and a warm-vs-cold-cache oracle.",
-  note="Hypotheses: the bar's data covers the held tokens, indices non-zero; one post-mutation raise inside _do_liquidate (variable_delt < actual_debt_to_liquidate) is excluded "
-       "(never observed in 139 000 cases). APYs via the model's dpowNat. Fixes: 304deb1, c25cbec.",
+  note="Hypotheses: the bar's data covers the held tokens, indices non-zero; no raise is excluded: the _do_liquidate debt check is proved unreachable (C13_liquidate_never_raises_debt_exceeds: monotone idempotent rounding, no "
+       "negative debt; hypothesis Aave.updWF evaluated on every update() of the run, a raise on a well-formed state is a VIOLATION; RndMono instantiated for exact arithmetic only). APYs via the model's dpowNat. Fixes: 304deb1, c25cbec.",
   technique="Lean 4 proof (cache-coherence invariant, per-write reset lemmas, induction over histories) + differential execution + warm-vs-cold oracle",
   ref="DESIGN.md §2 C13")
 
@@ -252,6 +261,8 @@ claim("C18",
        "instantiated for arithmetic grids and for the full Actuator.run model; the run raises iff a trigger was built from an empty list; witnesses of the pre-fix starvation. Tied "
        "to the code by differential execution of the real Actuator against the compiled model and an independent Python oracle of the denotation.",
   note="Model = repaired code (43f1fdf, 79587c6, 840da9c); bar times taken from the implementation's own before_bar calls; PriceTrigger/CustomizedTrigger out of scope; empty-list "
-       "triggers raise (proved, not repaired); hooks assumed not to mutate strategy.triggers.",
+       "triggers raise (proved, not repaired); trigger actions may append/remove triggers in place (10 theorems on the loop under list mutation: index loop = cursor loop, no change = static loop, "
+       "append-only = static loop over the final list, exact effect of removals, tied to the general Actuator model's loop); known finding: a trigger behind one removed at/before the "
+       "cursor is passed over on that bar (Actuator.run:trigger-skipped-after-removal-during-loop, kernel-checked witness).",
   technique="Lean 4 proof (induction over bar and trigger lists, lattice invariant for period triggers) + differential execution of the real Actuator + denotation oracle",
   ref="DESIGN.md §2 C18")
